@@ -1,4 +1,13 @@
-"""Conformance of small structural functions of the compiler with spec/Structure.tla (exhaustive enumeration)."""
+"""Conformance of small structural functions of the compiler with spec/Structure.tla (exhaustive enumeration).
+
+A deviation of an internal function from its specification is NOT a violation of a listed property: the properties
+speak about kernels, tensors and outcomes, not about how the compiler is organised, and a refactoring that keeps them
+may change any of these functions.  The check_* functions therefore return DEVIATIONS; `witness_requests` turns each
+one into the concrete request (assignment + formats) in which the deviating behaviour is exercised, and the owning
+check runs that request through its ordinary property-level judge (pipeline: C01/C02/C03/C05/C06; C16: scale judge;
+C08: the format sweeps already cover every format of the orders compared here).  Only what that judge finds is a
+VIOLATION; the deviation itself is reported as a NOTE and counted in the evidence.
+"""
 from __future__ import annotations
 
 from .common import use_repo
@@ -159,3 +168,55 @@ def check_subgraphs(tier):
                 continue
             break
     return vio, r, len(r.lines)
+
+
+# ---------------------------------------------------------------------------------------------------------------------
+# deviations -> property-level witnesses
+
+
+def _expr_text(e, counter, formats):
+    """Assignment text of a Structure.tla expression at index i; fills `formats` for the tensors it introduces."""
+    if e["k"] == "leaf":
+        kind = e["kind"]
+        if kind in ("compressed", "dense", "absent"):
+            counter[0] += 1
+            nm = f"t{counter[0]}"
+            formats[nm] = "d0" if kind == "dense" else "s0"
+            return f"{nm}({'j' if kind == 'absent' else 'i'})"
+        return {"zero": "0", "zerof": "0.0"}.get(kind, "2")
+    return f"({_expr_text(e['l'], counter, formats)} {e['k']} {_expr_text(e['r'], counter, formats)})"
+
+
+def witness_requests(devs, limit=40):
+    """(text, formats) requests exercising the deviating expressions: a(i) = <expr>, both a dense and a compressed
+    target.  Shapes carrying a known-finding tag are left out (they are judged as findings elsewhere)."""
+    from . import exprs
+
+    out, seen = [], set()
+    for dv in devs:
+        e = (dv.get("case") or {}).get("expr")
+        if not e:
+            continue
+        formats = {}
+        body = _expr_text(e, [0], formats)
+        if not any(v for v in formats):
+            continue
+        text = f"a(i) = {body}"
+        try:
+            asg = exprs.parse(text)
+        except Exception:  # noqa: BLE001
+            continue
+        if exprs.shape_tags(asg) or exprs.broadcast_target(asg) or text in seen:
+            continue
+        seen.add(text)
+        for tf in ("d0", "s0"):
+            out.append((text, dict({"a": tf}, **formats)))
+        if len(out) >= limit:
+            break
+    return out
+
+
+def note(prop: str, devs: list, what: str) -> None:
+    if devs:
+        print(f"NOTE property={prop} {len(devs)} deviation(s) of {what} from spec/Structure.tla; not a violation by itself: "
+              f"the deviating cases are judged by the property-level checks. First: {devs[0]['what'][:300]}")
